@@ -229,8 +229,9 @@ def zipSrc (sa sb : Side) (f : Nat → Option Id) : Src Zip2 where
   dropEv z := sb.dropEv z.b ++ sa.dropEv z.a
   owns := true
 
-/-- scripted user iterator (C07): `answers[k]` is the k-th `next()` result; `none` entries may be
-    followed by `some` again (non-fused); `panicAt` makes one poll panic. -/
+/-- scripted user iterator (C07): `answers` are the results of the `next()` calls still to come
+    (`none` entries may be followed by `some` again: a non-fused iterator; past the end it keeps
+    returning `None`); `k` counts the polls made; `panicAt` makes one poll panic. -/
 structure Script where
   answers : List (Option Id)
   k : Nat
@@ -239,10 +240,10 @@ deriving Repr, DecidableEq
 
 def scriptSrc : Src Script where
   step s :=
-    if s.panicAt = some s.k then .panic [.poll s.k, .panic s.k] { s with k := s.k + 1 }
-    else match s.answers[s.k]? with
-      | some (some x) => .yield [.poll s.k, .take s.k x] x { s with k := s.k + 1 }
-      | _ => .done [.poll s.k] { s with k := s.k + 1 }
+    if s.panicAt = some s.k then .panic [.poll s.k, .panic s.k] { s with k := s.k + 1, answers := s.answers.tail }
+    else match s.answers with
+      | some x :: t => .yield [.poll s.k, .take s.k x] x { s with k := s.k + 1, answers := t }
+      | _ => .done [.poll s.k] { s with k := s.k + 1, answers := s.answers.tail }
   dropEv _ := []      -- items not yet produced do not exist
   owns := true
 
